@@ -125,7 +125,12 @@ def _pair_product(args):
             cfg.max_dims = np.array([1, M1, M2, 1])
             mps.compress_config = cfg
             with Recorder() as rec:
-                mps.compress()
+                if crit == "fixed" and (a + b + M1 + M2) % 2 == 0:
+                    # the same per-bond limits passed as a temporary list (mp.py: list branch of temp_m_trunc)
+                    detail["temp_m_trunc_list"] = True
+                    mps.compress(temp_m_trunc=[1, M1, M2, 1])
+                else:
+                    mps.compress()
             out["trace"] += _trace_records(rec.calls, f"pp/{s1}/{s2}/{crit}/{thr}/{M1}/{M2}/{direction}")
         except Exception as e:
             out["viol"].append((f"C05:pair-product-raises:{crit}", f"{type(e).__name__}: {e}", detail))
@@ -206,7 +211,11 @@ def _random_chain(args):
                             cfg.max_dims = np.array(M)
                         mps.compress_config = cfg
                         with Recorder() as rec:
-                            mps.compress()
+                            if crit == "fixed" and isinstance(M, list) and rep % 2 == 0:
+                                detail["temp_m_trunc_list"] = True
+                                mps.compress(temp_m_trunc=list(M))
+                            else:
+                                mps.compress()
                         out["trace"] += _trace_records(rec.calls, f"ch/{k}/{rep}/{kind}/{crit}/{thr}/{M}/{direction}")
                     except Exception as e:
                         cls = "flat-spectrum-large-threshold" if (crit == "threshold" and thr == (9, 10)) else "general"
